@@ -33,7 +33,8 @@ for p in props:
         'level_claimed': {'category': mod.LEVEL, 'text': mod.EXPLANATION, 'design_ref': 'DESIGN.md section 4 / ' + pid},
         'level_note': '; '.join(mod.ASSUMPTIONS) + '; facts = MIR of nightly rustc at mir-opt-level 0 for the listed cargo configurations; '
                       'providers opaque; sync build only',
-        'technique': 'static analysis: ' + mod.TECHNIQUE,
+        'technique': 'static analysis: ' + mod.TECHNIQUE + '; plus reviewed-structure inventories over the anchor files (branch conditions, guards, error '
+                     'constructions, unconditional calls, argument origins, match-arm variant maps) compared with tables regenerated from the reviewed tree',
     })
 m = {
     'version': 1,
